@@ -16,7 +16,9 @@ EXPLANATION = (
     "the integrand actually formed; (R09.4) in the two-space routine row-side objects derive from the test space and column-side "
     "objects from the trial space; (R09.5) inner_products and integrate share quadrature, physical switch, weights and |det J| "
     "factor; (R09.6) element-matrix slicing and COO index construction use one node count and the same first-active indices.")
-DOES_NOT_DECIDE = "SPD/kernel/sum identities of assembled matrices, numerical exactness, the low-rank assembler and fastasm.cc (no C++ front end)"
+EXPLANATION_MORE = ("  Added after the seeded waves: (R09.7 = R17.6) inner_products / integrate weight by |det J|; (R09.8) quadrature "
+                    "producers return freshly allocated rules, because consumers scale the weights they obtained in place.")
+DOES_NOT_DECIDE ="SPD/kernel/sum identities of assembled matrices, numerical exactness, the low-rank assembler and fastasm.cc (no C++ front end)"
 TECHNIQUE = "symbolic evaluation of straight-line kernels into polynomial/rational normal forms; term algebra of Kronecker sums; affine algebra; provenance of local names"
 
 A = 'pyiga.assemble'
